@@ -18,7 +18,10 @@ func (P) Rule() string {
 	return "each case is a chain on the real LinkApplication in which every re-inclusion listed in the property is attempted: the same confidential output spent by two transactions " +
 		"submitted to the mempool, forced into one block (forceblock = what a Byzantine proposer can assemble), into a later block, after a restart from the databases; the same signed account " +
 		"transaction replayed through the mempool, forced twice into a block and into a later block; nonce gaps and reorderings; " +
-		"monitors on the committed history: no output spent twice, no transaction committed twice, per sender the executed nonces are 0,1,2,...; " +
+		"forced blocks carrying VALUE-UNDERFUNDED account transfers (gas funded): the real Process commits them with a FAILED receipt and the nonce is CONSUMED — alone, mixed with valid ones, followed by the " +
+		"sender's next nonce in the same block, twice the same, two different ones with one nonce, then replayed through the mempool and forced again (also after a restart); gas-underfunded ones (block invalid); " +
+		"monitors on the committed history: no output spent twice, no transaction committed twice (a failed receipt counts as committed), per sender the committed nonces — executed OR failed — are 0,1,2,... " +
+		"and the nonces the application reports equal the number of committed account transactions of each sender; " +
 		"non-trivial = at least one re-inclusion attempt of an already used unit was made after it was committed or queued; distinct = distinct op sequence"
 }
 
@@ -39,6 +42,8 @@ func (P) Monitor(c *hx.CaseRun) []hx.Failure {
 	committedTx := map[int]int{}
 	spentOut := map[string]int{}
 	nextNonce := map[int]int{}
+	failedReceipts := 0
+	_ = failedReceipts
 	for i, op := range c.Ops {
 		ans := c.Impl[i]
 		toks := hx.Tokens(op)
@@ -54,6 +59,26 @@ func (P) Monitor(c *hx.CaseRun) []hx.Failure {
 		}
 		if strings.HasPrefix(ans, "panic") {
 			fs = append(fs, hx.Failure{Monitor: "no_panic", Class: "panic:" + ans, Site: "app", Msg: op})
+		}
+		if toks[0] == "receipts" {
+			// the op line carries what the implementation recorded (dry run), the answer confirms it: count failed receipts
+			if v, ok := hx.Arg(toks, "st"); ok {
+				for _, st := range hx.SplitComma(v) {
+					if st == "0" {
+						failedReceipts++
+					}
+				}
+			}
+		}
+		if toks[0] == "nonces" && strings.HasPrefix(ans, "n=") {
+			// every committed account transaction — executed or FAILED — consumed exactly one nonce of its sender
+			for from, s := range hx.SplitComma(strings.TrimPrefix(ans, "n=")) {
+				n, _ := strconv.Atoi(s)
+				if n != nextNonce[from] {
+					fs = append(fs, hx.Failure{Monitor: "nonce_consumed_by_every_receipt", Class: "nonce-not-consumed", Site: "app/state_transition.go:setNonce",
+						Msg: fmt.Sprintf("sender %d: the application reports nonce %d after %d committed account transactions (failed receipts included)", from, n, nextNonce[from])})
+				}
+			}
 		}
 		if (toks[0] == "block" || toks[0] == "forceblock") && strings.HasPrefix(ans, "h=") {
 			txs, _ := hx.Arg(a, "txs")
@@ -90,6 +115,10 @@ func (P) Monitor(c *hx.CaseRun) []hx.Failure {
 }
 
 func (P) Generate(g *hx.Gen) {
+	g.Case("corpus: forced block with value-underfunded transfers (failed receipts consume the nonce)", c06.WithReceipts(c06.Underfunded), true)
+	for k, nu := 0, g.Pick(60, 500); k < nu; k++ {
+		g.Case("underfunded forced blocks", c06.WithReceipts(c06.UnderfundedCase(g)), true)
+	}
 	n := g.Pick(200, 1000)
 	for k := 0; k < n; k++ {
 		trie := g.Rng.Intn(2)
@@ -111,7 +140,7 @@ func (P) Generate(g *hx.Gen) {
 		ops = append(ops, "block", "bal")
 		rounds := 2 + g.Rng.Intn(g.Pick(3, 5))
 		for r := 0; r < rounds; r++ {
-			switch g.Rng.Intn(11) {
+			switch g.Rng.Intn(12) {
 			case 0: // two spends of one output through the mempool
 				in := g.Rng.Intn(outs)
 				ops = append(ops, fmt.Sprintf("uu w=0 in=%d to=1 amount=%d", in, 1+g.Rng.Intn(1000000)), fmt.Sprintf("ua w=0 in=%d to=%d amount=%d", in, g.Rng.Intn(3), 1+g.Rng.Intn(1000000)))
@@ -171,6 +200,22 @@ func (P) Generate(g *hx.Gen) {
 				acctTxs = append(acctTxs, b, a)
 				ops = append(ops, fmt.Sprintf("forceblock ids=%d,%d", a, b), fmt.Sprintf("forceblock ids=%d,%d", b, a))
 				nonce[from] += 2
+				attempts++
+			case 7: // a value-underfunded transfer (gas funded) forced into a block: FAILED receipt, nonce consumed; then replayed and forced again
+				from := g.Rng.Intn(3)
+				if g.Rng.Intn(3) == 0 {
+					ops = append(ops, fmt.Sprintf("xfertok from=%d to=%d amount=%d nonce=%d", from, g.Rng.Intn(3), 2000000+g.Rng.Intn(1000000), nonce[from]))
+				} else {
+					ops = append(ops, fmt.Sprintf("xfer from=%d to=%d amount=%d nonce=%d", from, g.Rng.Intn(3), 2000000000000+int64(g.Rng.Intn(1000000)), nonce[from]))
+				}
+				a := id
+				id++
+				nonce[from]++
+				acctTxs = append(acctTxs, a)
+				if g.Rng.Intn(2) == 0 {
+					ops = append(ops, fmt.Sprintf("forceblock ids=%d,%d", a, a))
+				}
+				ops = append(ops, fmt.Sprintf("forceblock ids=%d", a), "nonces", fmt.Sprintf("replay id=%d", a), "block", fmt.Sprintf("forceblock ids=%d", a))
 				attempts++
 			case 6: // restart, then try to spend a spent output again
 				ops = append(ops, "restart")
